@@ -90,6 +90,21 @@ def specAnswer (what : String) (n : Nat) (tts : List Nat) : String :=
   | "twoval" => Spec.showSet (Spec.models2 n tts)
   | _ => Spec.showSet (Spec.stableAll n tts)
 
+/-- Beyond truth-table size (n > 7) the property oracle is the VERIFIED model itself, run on a
+fresh native store: `groundedLoop`, `completeAll`, `stableAll` and `SM.ngSearch` are proved to return
+exactly the definitional answers for every n (C01 `grounded_native_end_to_end`, C02 `complete_exact`,
+C03 `stable_exact`, C05 `ng_search_exact`), so their answers, rendered as T/F/u, ARE the
+specification's answers. Same format as `specAnswer`. -/
+def modelAnswer (what : String) (n : Nat) (fms : List Fm) : String :=
+  let nat := buildNative n fms
+  match what with
+  | "grounded" => tfu (groundedLoop StoreRA (n + 1) nat.1 nat.2).2
+  | "complete" =>
+    let r := completeAll nat.1 n nat.2
+    s!"first={tfu r.2.1} set={showSetV r.2.2}"
+  | "twoval" => showSetV (SM.ngSearch .simple 2000000 nat.1 n nat.2 false).2.1
+  | _ => showSetV (stableAll nat.1 n nat.2).2
+
 def renameFm (ren : Nat → Nat) : Fm → Fm
   | .top => .top | .bot => .bot
   | .atom v => .atom (ren v)
@@ -226,6 +241,10 @@ def adfStep (a : AdfSt) (l : String) (ws : List String) : Option (List String ×
       let decl := if sort == "none" && order != perm.filter (· < a.n) then "differs" else "ok"
       some ([l, s!"~ {orderCheck a.n sort perm (labels.splitOn ",") order}", s!"= declaration-order {decl}"], a)
     | _, _ => some ([l, "~ bad-request"], a)
+  | ["completefirst", _] =>
+    -- the first complete model is the grounded interpretation (C02 `complete_exact`: head = grounded)
+    let g := if a.n ≤ 7 then specAnswer "grounded" a.n a.tts else modelAnswer "grounded" a.n a.fms.toList
+    some ([l, s!"~ first={g}"], a)
   | ["randrepro", _, _, mode, _] =>
     -- StdRng is not modelled: the specification only says that a seeded random search is
     -- reproducible (same object twice, and a twin) and returns the prescribed set
@@ -292,8 +311,8 @@ def adfStep (a : AdfSt) (l : String) (ws : List String) : Option (List String ×
       | none => some ([l, "= bad-request"], a)
     else if !(["grounded", "complete", "stable", "stablepre", "stablerew", "stablerew2", "stmca", "stmcb"].contains what) then none
     else
-      let tts := a.tts
-      let spec := specAnswer what a.n tts
+      let tts := if a.n ≤ 7 then a.tts else []
+      let spec := if a.n ≤ 7 then specAnswer what a.n tts else modelAnswer what a.n a.fms.toList
       if p == "bio" || what == "stablerew" || what == "stablerew2" then
         let w := if what == "stablerew" || what == "stablerew2" then "stable" else what
         -- up to 7 statements: the model of the biodivine back-end's OWN algorithms (`BioModel`, proved
@@ -326,7 +345,8 @@ def adfStep (a : AdfSt) (l : String) (ws : List String) : Option (List String ×
   | [ng, p, heu, mode] =>
     if ng != "ng" && ng != "ngch" then none else
     let stable := mode == "stable"
-    let spec := specAnswer (if stable then "stable" else "twoval") a.n a.tts
+    let spec := if a.n ≤ 7 then specAnswer (if stable then "stable" else "twoval") a.n a.tts
+                else modelAnswer (if stable then "stable" else "twoval") a.n a.fms.toList
     match a.pipe p, parseHeu heu with
     | some (s, ac), some (some h) =>
       let r := SM.ngSearch h 200000 s a.n ac stable
